@@ -16,7 +16,13 @@
 //!      line_surface_deviations on a closed CCW square of side 4 and an open L-shaped polyline, and
 //!      Mesh::measure_point_deviation (both modes) on a 4x4x4 box: measured points on both sides of edge / face
 //!      interiors, off corners (and box edges) and beyond the ends of the open curve, at distances 1e-7, 1e-5, 1e-4,
-//!      1e-2 and 1, compared with a brute-force closest-point oracle.
+//!      1e-2 and 1, compared with a brute-force closest-point oracle;
+//!  (a2, wave 4) SurfaceDeviationSet::new on every vector of length 1..=3 over {+-f64::MAX, +-inf, 0, +-1, +-MIN_POSITIVE,
+//!      +-5e-324} followed by every single push from the same pool: extremes are Some and true, nothing panics;
+//!  (b2, wave 4) breakpoint tables as the constructors deliver them: DiscreteDomain::try_from on every vector of length
+//!      0..=4 over 11 values whose neighbours are one rounding step apart (accepted exactly when ascending in the sense
+//!      w[0] <= w[1]), DiscreteDomain::push histories of length <= 4 (a value below the LAST breakpoint is refused and
+//!      changes nothing), every resulting map queried as in (b).
 use super::Report;
 use crate::common::{DiscreteDomain, DistMode, Interval, SurfacePoint};
 use crate::geom2::{Curve2, Point2, UnitVec2, Vector2};
@@ -705,13 +711,153 @@ fn mesh_deviations(r: &mut Report) {
     }
 }
 
+// ------------------------------------------------------------------------------------------------ wave 4 additions
+fn guarded<T>(f: impl FnOnce() -> T) -> Option<T> { std::panic::catch_unwind(std::panic::AssertUnwindSafe(f)).ok() }
+
+/// (a2) deviation sets holding values at the ends of the f64 range: every vector of length 1..=3 over
+/// {+-f64::MAX, +-inf, 0, +-1, +-MIN_POSITIVE, +-5e-324} given to new(), followed by every single push from the same
+/// pool: max / min are Some and the true extremes (NaN-free values have a maximum and a minimum), nothing panics.
+fn extreme_deviation_sets(r: &mut Report) {
+    let vals = [f64::MAX, f64::MIN, f64::INFINITY, f64::NEG_INFINITY, 0.0, 1.0, -1.0, f64::MIN_POSITIVE, -f64::MIN_POSITIVE, 5e-324, -5e-324];
+    let nv = vals.len();
+    for n in 1..=3usize {
+        for code in 0..nv.pow(n as u32) {
+            let mut h = Vec::with_capacity(n + 1);
+            let mut c = code;
+            for _ in 0..n { h.push(vals[c % nv]); c /= nv; }
+            r.case();
+            let how = || format!("new({:?})", h);
+            let Some(s) = guarded(|| SurfaceDeviationSet2::new((0..n).map(|i| dev(i, h[i])).collect())) else { r.check(false, "set: new returns (no panic) on NaN-free values, +-inf and +-f64::MAX included", how); continue; };
+            if guarded(|| { let mut q = Report::new(""); check_set(&mut q, &s, &h, &how); }).is_none() {
+                r.check(false, "set: max / min / symmetrical_zone_size return (no panic) on NaN-free values, +-inf and +-f64::MAX included", how);
+                let bmax = h.iter().cloned().fold(f64::NEG_INFINITY, f64::max);
+                let bmin = h.iter().cloned().fold(f64::INFINITY, f64::min);
+                r.check(guarded(|| s.max().map(|m| m.deviation)) == Some(Some(bmax)), "set: reports the true maximum of everything held", how);
+                r.check(guarded(|| s.min().map(|m| m.deviation)) == Some(Some(bmin)), "set: reports the true minimum of everything held", how);
+                continue;
+            }
+            check_set(r, &s, &h, &how);
+            for &v in vals.iter() {
+                let mut h2 = h.clone(); h2.push(v);
+                let how2 = || format!("new({:?}) then push {:?}", h, v);
+                let got = guarded(|| { let mut t = SurfaceDeviationSet2::new((0..n).map(|i| dev(i, h[i])).collect()); t.push(dev(n, v)); let mut q = Report::new(""); check_set(&mut q, &t, &h2, &how2); t });
+                match got {
+                    None => r.check(false, "set: push / max / min return (no panic) on NaN-free values, +-inf and +-f64::MAX included", how2),
+                    Some(t) => check_set(r, &t, &h2, &how2),
+                }
+            }
+        }
+    }
+}
+
+/// the zone a map must answer with: the greatest breakpoint not above x (with repeated breakpoints any of their zones)
+fn check_map_queries(r: &mut Report, map: &DiscreteDomainTolMap, t: &[f64], built: &str) {
+    let n = t.len();
+    let zone = |i: usize| Tolerance::new_unchecked(-(i as f64) - 1.0, i as f64 + 0.5);
+    let mut xs: Vec<f64> = vec![-5.0, 0.25];
+    for (i, &b) in t.iter().enumerate() {
+        xs.push(b); xs.push(ulp_up(b)); xs.push(ulp_down(b));
+        if i + 1 < n { xs.push(0.5 * (b + t[i + 1])); }
+    }
+    if n > 0 { xs.push(t[n - 1] + 1.0); }
+    for &x in xs.iter() {
+        let how = || format!("breakpoints {:?} ({}; zone i = [-(i+1), i+0.5]), get({:?})", t, built, x);
+        let Some(got) = guarded(|| map.get(x)) else { r.check(false, "tolmap: get returns (no panic)", how); continue; };
+        let mut best: Option<f64> = None;
+        for &b in t.iter() { if b <= x { best = Some(match best { Some(c) if c > b => c, _ => b }); } }
+        match (best, got) {
+            (None, g) => r.check(g.is_none(), "tolmap: no zone below the first breakpoint (or on an empty table)", how),
+            (Some(_), None) => r.check(false, "tolmap: zone of the greatest breakpoint not above x", how),
+            (Some(bv), Some(z)) => {
+                let ok = (0..n).any(|i| t[i] == bv && z.lower == zone(i).lower && z.upper == zone(i).upper);
+                if x == bv { r.check(ok, "tolmap: exactly on a breakpoint the zone of that breakpoint", how); }
+                else { r.check(ok, "tolmap: zone of the greatest breakpoint not above x", how); }
+            }
+        }
+    }
+}
+
+/// (b2) breakpoint tables as the constructors deliver them. try_from: every vector of length 0..=4 over a pool with
+/// neighbours one rounding step apart at several magnitudes (0.3 / 0.1+0.2, 1 / 1+2^-52, -1 / -1+2^-53, 1e6 / next,
+/// 0 / 5e-324 / 1e-17): accepted exactly when w[0] <= w[1] for every neighbouring pair (ascending means <=, exactly),
+/// the accepted table answers every query with the greatest breakpoint not above x.  push: every history of length
+/// <= 4 over {-1, 0, 0.3, 0.1+0.2, 1, 2, 3, +inf, NaN} from the empty table and from try_from(prefix): a value below
+/// the LAST breakpoint is refused and changes nothing, the table stays ascending, the map built on it answers as above.
+fn breakpoint_tables(r: &mut Report) {
+    let zone = |i: usize| Tolerance::new_unchecked(-(i as f64) - 1.0, i as f64 + 0.5);
+    let ascending = |v: &[f64]| v.iter().all(|x| x.is_finite()) && v.windows(2).all(|w| w[0] <= w[1]);
+    let pool = [-1.0, ulp_up(-1.0), 0.0, 5e-324, 1e-17, 0.3, 0.1 + 0.2, 1.0, ulp_up(1.0), 1e6, ulp_up(1e6)];
+    let np = pool.len();
+    for n in 0..=4usize {
+        for code in 0..np.pow(n as u32) {
+            let mut t = Vec::with_capacity(n);
+            let mut c = code;
+            for _ in 0..n { t.push(pool[c % np]); c /= np; }
+            r.case();
+            let how = || format!("DiscreteDomain::try_from({:?})", t);
+            let Some(res) = guarded(|| DiscreteDomain::try_from(t.clone())) else { r.check(false, "breakpoint table: try_from returns (no panic)", how); continue; };
+            match res {
+                Err(_) => r.check(!ascending(&t), "breakpoint table: an ascending finite table is accepted (equal neighbours included)", how),
+                Ok(d) => {
+                    r.check(ascending(&t), "breakpoint table: a table whose neighbours are out of order - even by one rounding step - is rejected (ascending means <=, exactly)", how);
+                    r.check(d.values() == &t[..], "breakpoint table: try_from keeps the values", how);
+                    if let Ok(map) = DiscreteDomainTolMap::try_new(d, (0..n).map(zone).collect()) { check_map_queries(r, &map, &t, "try_from"); }
+                    else { r.check(false, "tolmap: one zone per breakpoint is accepted", how); }
+                }
+            }
+        }
+    }
+    let pushes = [-1.0, 0.0, 0.3, 0.1 + 0.2, 1.0, 2.0, 3.0, f64::INFINITY, f64::NAN];
+    let nq = pushes.len();
+    for n in 1..=4usize {
+        for code in 0..nq.pow(n as u32) {
+            let mut h = Vec::with_capacity(n);
+            let mut c = code;
+            for _ in 0..n { h.push(pushes[c % nq]); c /= nq; }
+            for k0 in 0..n {
+                // start: the empty table (k0 = 0) or try_from(first k0 values) when that prefix is a valid table
+                if k0 > 0 && !ascending(&h[..k0]) { continue; }
+                let Ok(mut d) = (if k0 == 0 { Ok(DiscreteDomain::default()) } else { DiscreteDomain::try_from(h[..k0].to_vec()) }) else { continue; };
+                r.case();
+                let mut model: Vec<f64> = h[..k0].to_vec();
+                for step in k0..n {
+                    let v = h[step];
+                    let before = model.clone();
+                    let how = || format!("{} then push each of {:?} (table before the last push: {:?})", if k0 == 0 { "DiscreteDomain::default()".to_string() } else { format!("try_from({:?})", &h[..k0]) }, &h[k0..=step], before);
+                    let expect_ok = v.is_finite() && model.last().map_or(true, |l| v >= *l);
+                    let Some(ok) = guarded(|| d.push(v).is_ok()) else { r.check(false, "breakpoint table: push returns (no panic)", how); break; };
+                    r.check(ok == expect_ok, "breakpoint table: push accepts exactly a finite value not below the LAST breakpoint", how);
+                    if ok && expect_ok { model.push(v); }
+                    let same = d.values().len() == model.len() && d.values().iter().zip(model.iter()).all(|(a, b)| a == b);
+                    if expect_ok { r.check(same, "breakpoint table: an accepted push appends the value", how); }
+                    else { r.check(same, "breakpoint table: a refused push changes nothing", how); }
+                    r.check(ascending(d.values()), "breakpoint table: stays finite and ascending after any push history", how);
+                    if !same { break; }
+                }
+                if d.values() == &model[..] {
+                    let m = model.len();
+                    if let Ok(map) = DiscreteDomainTolMap::try_new(d, (0..m).map(zone).collect()) { check_map_queries(r, &map, &model, "grown by push"); }
+                    else { r.check(false, "tolmap: one zone per breakpoint is accepted", || format!("{:?}", model)); }
+                }
+            }
+        }
+    }
+}
+
 pub fn run() -> Option<Report> {
     let mut r = Report::new("deviation sets: all push histories of length <= 5 over 7 values incl. ties and one-ulp neighbours, from default() and new(prefix); \
 tolerance maps: all ascending tables of length 0..=4 over 5 breakpoints, x at breakpoints, one-ulp neighbours, midpoints, below the start, beyond the end; \
 point clouds: all sequences of <= 3 operations (append / merge / create_from_indices, every presence combination) from 12 starts, try_new over all presence/length combinations; \
-distances on integer points with 9 directions, and with end points offset by 1e3 and 1e6 from the origin (4 offsets in 3D, 3 in 2D) at separations 1e-3, 1e-2, 0.1, 1 along and against 6 (5) unit vectors, measured along the default and 6 (5) given directions, tolerance 1e-12 of the separation; curve / mesh deviations on a square of side 4, an open polyline and a 4x4x4 box at offsets 1e-7, 1e-5, 1e-4, 1e-2, 1 on both sides, off corners and beyond ends");
+distances on integer points with 9 directions, and with end points offset by 1e3 and 1e6 from the origin (4 offsets in 3D, 3 in 2D) at separations 1e-3, 1e-2, 0.1, 1 along and against 6 (5) unit vectors, measured along the default and 6 (5) given directions, tolerance 1e-12 of the separation; curve / mesh deviations on a square of side 4, an open polyline and a 4x4x4 box at offsets 1e-7, 1e-5, 1e-4, 1e-2, 1 on both sides, off corners and beyond ends; \
+wave 4: deviation sets built by new() from every vector of length 1..=3 over {+-f64::MAX, +-inf, 0, +-1, +-MIN_POSITIVE, +-5e-324} plus one push; breakpoint tables: try_from on every vector of length 0..=4 over 11 values with neighbours one rounding step apart (0.3 / 0.1+0.2, 1 / 1+2^-52, -1 / -1+2^-53, 1e6 / next, 0 / 5e-324 / 1e-17), push histories of length <= 4 over {-1, 0, 0.3, 0.1+0.2, 1, 2, 3, +inf, NaN} from the empty table and from try_from(prefix), every resulting table queried at breakpoints, one-ulp neighbours and midpoints");
     deviation_sets(&mut r);
     tolerance_maps(&mut r);
+    // the real code is called under catch_unwind in the wave-4 groups: keep the default hook from printing one message per caught panic
+    let hook = std::panic::take_hook();
+    std::panic::set_hook(Box::new(|_| {}));
+    extreme_deviation_sets(&mut r);
+    breakpoint_tables(&mut r);
+    std::panic::set_hook(hook);
     point_clouds(&mut r);
     distances(&mut r);
     far_distances(&mut r);
